@@ -194,8 +194,11 @@ def gen(rng: random.Random, k: int, tier: str) -> dict:
             ops.append({"op": "corrupt", "name": tgt, "how": rng.choice(["truncate", "delete", "schema_invalid", "garbage"]), "frac": round(rng.uniform(0.1, 0.9), 2)})
         op = _gen_cli(rng, cfg, files, wsdocs, nout)
         nout += 1
+        sub_draw = rng.random()   # drawn in every tier so that segment k is the same history everywhere
         if rng.random() < cfg["fault_rate"]:
             op["fault"] = {"kind": rng.choice(["io_error", "io_error", "crash"]), "at": rng.randint(1, 4), "err": rng.choice(["ENOSPC", "EIO", "EACCES"])}
+        elif tier == "thorough" and sub_draw < 1.0 / 30 and op.get("backend") in (None, "numpy", "np") and op.get("calctype") != "toybased":
+            op["subprocess"] = True
         elif rng.random() < cfg["fault_rate"] * 0.3 and op.get("out"):
             op["out"] = "nodir/" + op["out"]
         ops.append(op)
@@ -700,6 +703,28 @@ class World:
                 ctx.probe("stdin_vs_path_identical")
             except Exception as e:
                 ctx.fail("stdin_vs_path", dict(sig, cls="stdin_vs_path", what="second_route_fails"), f"{type(e).__name__}: {e}; {detail_ctx}")
+        # ---- the same invocation as a real process (validates the restart emulation) ----------
+        if op.get("subprocess") and not fault:
+            alt_out = f"sub_{self.ninv}.json" if out else None
+            argv4, stdin4 = self._argv(op, op["via"], alt_out)
+            env = dict(os.environ, PYTHONPATH=os.environ.get("VERIF_REPO_SRC", "/repo/src"), PYTHONHASHSEED="0")
+            try:
+                pr = subprocess.run(["/venv/bin/python", "-W", "ignore", "-c", "from pyhf.cli import cli; cli()"] + argv4, input=stdin4 or "",
+                                    capture_output=True, text=True, cwd=self.root, env=env, timeout=300)
+                if alt_out:
+                    with open(self._p(alt_out), encoding="utf-8") as f:
+                        other = json.load(f)
+                    same = self._same(other, got_file)
+                else:
+                    same = (self._same(json.loads(pr.stdout), json.loads(r.stdout)) if cmd not in ("inspect", "ps_verify", "ps_inspect", "digest") or op.get("json")
+                            else pr.stdout == r.stdout)
+                ctx.check(pr.returncode == 0 and same, "subprocess", dict(sig, cls="subprocess", what="differs"),
+                          lambda: f"real subprocess (rc={pr.returncode}) disagrees with the in-process invocation: {pr.stdout[:200]!r} / {pr.stderr[-300:]!r}; {detail_ctx}")
+                ctx.probe("real_subprocess_agrees")
+            except subprocess.TimeoutExpired:
+                raise core.HarnessError("subprocess timeout")
+            except (ValueError, OSError) as e:
+                ctx.fail("subprocess", dict(sig, cls="subprocess", what="unreadable"), f"{type(e).__name__}: {e}; stdout={pr.stdout[:200]!r} stderr={pr.stderr[-300:]!r}; {detail_ctx}")
         # ---- inputs untouched ---------------------------------------------------------------
         for name, content in snap.items():
             try:
